@@ -62,7 +62,11 @@ CLAIMS["C14"] = dict(
          "prediction and diff2Loss = derivative of diff_loss; with weights diff_loss = w x that derivative and the Normal loss is the N(0,sigma^2) "
          "nll of the weighted residual (as the code has it); apply_weighting=False = unit weight. The array glue (vector, (n,1), (1,n) inputs; default / "
          "scalar / per-observation spread; weights) is tied per run: real loss/diff_loss/diff2Loss against scipy.stats reference log-densities, 50-digit "
-         "mpmath derivatives of independent closed forms, expected shapes, and the translated formula evaluated numerically (translation validation).",
+         "mpmath derivatives of independent closed forms, expected shapes, and the translated formula evaluated numerically (translation validation). "
+         "Call sequences: the modelled kernel object is its data and has no state (session_is_pure, earlier_results_kept, repeat_reproduces, objects_do_not_interact); "
+         "the real objects are TESTED against that per run (not proved): one prediction buffer object refilled in place or re-viewed between calls, sibling objects of the "
+         "same class in between, deepcopy / pickle, a new object on the caller's refilled observation array, results kept or overwritten by the caller, y / prediction / "
+         "spread / weight containers and dtypes varied; every value against the closed forms at call-time content.",
     note="Trusted: Lean kernel + Mathlib; the translator (that the emitted Lean term denotes what the Python expression computes elementwise on reals; it refuses "
          "source outside its subset, which is reported as a broken tie); scipy.stats log-densities as executable references; gammaln(z) read as log Gamma(z) and "
          "st.poisson.logpmf read as its documented closed form; float vs real arithmetic at relative tolerance 1e-8. diff2Loss of Gamma / NegBinom under "
@@ -77,7 +81,11 @@ CLAIMS["C19"] = dict(
          "seed every documented generator is served by RandomState(seed) only (seeded_generators_reproducible). Over the reals: scale=1/rate forms equal Mathlib's "
          "exponentialPDFReal / gammaPDFReal / gaussianPDFReal, the translated nb2pmf is the negative-binomial mass and the mean/size form equals the (n,p) form. "
          "Tied per run: every table row replayed through scipy/numpy against the real function; d/p/q against mpmath closed forms (generalised inverse for discrete "
-         "quantiles, p(q(u)) = u, d = dp/dx); each rX twice with the same integer seed with the serving generator recorded; DKW test of 4000 seeded draws.",
+         "quantiles, p(q(u)) = u, d = dp/dx); each rX twice with the same integer seed with the serving generator recorded; DKW test of 4000 seeded draws. "
+         "Histories (tested per run, not proved; the Lean rows are pure functions and seeded_generators_reproducible holds for any two worlds): vectorised d/p/q calls "
+         "through observation / parameter containers refilled in place (lists, float / int arrays, views, numpy scalars), elementwise against the closed forms, results kept or "
+         "overwritten by the caller; sessions of 8-20 generator calls (several generators and integer seeds, n = 1 and n > 1, unseeded and RandomState-seeded calls in between): "
+         "equal (generator, parameters, n, seed) give equal draws and the single draw is the head of the block.",
     note="Trusted: Lean kernel; the translator and its table printer; scipy.stats methods as implementations of the named families and numpy samplers' laws "
          "(validated per run against closed forms, not proved); numpy RandomState(seed) is a function of the seed. pbeta does not exist in pygom.utilR and rbeta "
          "ignores its seed (not among the documented seeders): noted, not claimed. Until the proposed fixes are applied the check reports the genuine defects "
